@@ -89,7 +89,7 @@ func execAR(p arProg, c *hx.Case) error {
 				return hx.Errf("AssignRanges(to=%v, from=%v): new range %v is given old range %v which does not overlap it", to, perm, tr, perm[gi])
 			}
 		}
-		if slices.Compact(slices.Clone(g)); len(slices.Compact(slices.Clone(g))) != len(g) {
+		if len(slices.Compact(slices.Clone(g))) != len(g) {
 			return hx.Errf("AssignRanges gave new range %v the same old range twice: %v", tr, got[ti])
 		}
 	}
